@@ -10,7 +10,8 @@
     (see [C15_refuted_at_pinned] for what happens then). *)
 From stdpp Require Import gmap list numbers.
 From Coq Require Import ZArith NArith.
-From Verif Require Import Generated.SyncFacts Sync.Sync Sync.SyncProofs.
+From Verif Require Tx.Store Tx.Ledger Tx.Hist Tx.Node.
+From Verif Require Import Generated.SyncFacts Sync.Sync Sync.SyncProofs Sync.SyncStore.
 Local Open Scope Z_scope.
 
 (** What "the wallet is consistent with best chain [c], followed from height
@@ -246,4 +247,182 @@ Proof.
   cbv zeta. split; [|split; [reflexivity|]].
   - intros i x y Hx Hy. destruct i as [|[|[|i]]]; simpl in *; simplify_eq; done.
   - eexists. split; [vm_compute; reflexivity|]. vm_compute. repeat split.
+Qed.
+
+(** * Composition with the transaction-store development (Sync/SyncStore.v)
+
+    The handlers' effect on the transaction store is a history of
+    [Tx.Hist.event]s ([store_events], [startup_events]); the statements below
+    are about the model of the REAL store ([Tx.Store], run by [Hist.run] on
+    that history) and the ledger ([Hist.spec_run]), not about the
+    (txid, block) projection kept in the wallet state of Sync/Sync.v. *)
+
+(** The projection is the ledger: for any notification stream whose store
+    history is chain-consistent, the wallet's confirmed records are exactly
+    the ledger's confirmed facts; its unconfirmed records contain the
+    ledger's unconfirmed set (the ledger additionally drops conflicting
+    unconfirmed transactions with their descendants, and the unconfirmed
+    descendants of detached coinbase transactions). *)
+Theorem C15_projection_follows_ledger : forall U hdr l w m,
+  agrees U w (Hist.fs m) -> Forall (flag_ok U) l ->
+  Hist.consistent_from U m (run_events hdr l w) = true ->
+  agrees U (run hdr l w).1 (Hist.fs (foldl (Hist.spec_step U) m (run_events hdr l w))).
+Proof. intros U hdr l. exact (projection_follows_ledger U hdr l). Qed.
+Print Assumptions C15_projection_follows_ledger.
+
+(** Every history of a wallet that follows a placed best chain - valid
+    evolutions with stale disconnects interleaved, unconfirmed notifications,
+    offline periods; wallet transactions placed consistently with the
+    universe ([placed_ok]: each transaction once on the best chain, no double
+    spend, parents first, coinbase first in its block, unique block hashes) -
+    is a history the abstract validating node of Tx/Node.v emits, hence
+    chain-consistent; the Sync invariant holds and the projection is the ledger. *)
+Theorem C15_store_history_consistent : forall U hdr pc lo w evs,
+  follows U hdr pc lo w evs ->
+  Node.emits U evs /\ Hist.chain_consistent U evs = true /\
+  consistent hdr (chain_of pc) lo w /\ chain_synced w = true /\
+  agrees U w (Hist.fs (Hist.spec_run U evs)).
+Proof.
+  intros U hdr pc lo w evs H.
+  destruct (follows_emits U hdr eq_refl _ _ _ _ H) as [He Hc].
+  destruct (follows_sim U hdr eq_refl _ _ _ _ H) as [[Hs1 Hs2 _] Ha]. done.
+Qed.
+Print Assumptions C15_store_history_consistent.
+
+(** The ledger's confirmed facts are exactly the members of the placed best chain. *)
+Theorem C15_ledger_confirmed_is_best_chain : forall U hdr pc lo w evs t h hash,
+  follows U hdr pc lo w evs ->
+  (Ledger.f_conf (Hist.fs (Hist.spec_run U evs)) !! t = Some (h, hash) <->
+   1 <= h /\ exists nb, pc !! Z.to_nat h = Some nb /\ bh (nb_blk nb) = hash /\ t ∈ members nb).
+Proof.
+  intros U hdr pc lo w evs t h hash H.
+  destruct (follows_sim U hdr eq_refl _ _ _ _ H) as [Hs _].
+  destruct (sim_facts U hdr _ _ _ _ Hs) as [_ Hc]. apply Hc.
+Qed.
+Print Assumptions C15_ledger_confirmed_is_best_chain.
+
+(** End to end, on the store model: after processing the notifications, every
+    block that [tx_details] reports for a transaction is a block of the
+    backend's best chain - the one the transaction is a member of - at a
+    height the wallet is synced to. *)
+Theorem C15_store_confirmed_only_on_best_chain : forall U hdr pc lo w evs t d h hash,
+  Hist.wf_universe U = true -> follows U hdr pc lo w evs ->
+  Store.tx_details U (Hist.st (Hist.run U evs)) t = Some d ->
+  Store.d_block d = Some (h, hash) ->
+  on_chain (chain_of pc) h hash /\
+  (exists nb, pc !! Z.to_nat h = Some nb /\ bh (nb_blk nb) = hash /\ t ∈ members nb) /\
+  1 <= h <= m_height (synced w).
+Proof.
+  intros U hdr pc lo w evs t d h hash Hwf H.
+  destruct (follows_sim U hdr eq_refl _ _ _ _ H) as [Hs _].
+  exact (store_confirmed_only_on_best_chain U hdr pc lo w evs t d h hash Hwf Hs).
+Qed.
+Print Assumptions C15_store_confirmed_only_on_best_chain.
+
+(** The balance and the spendable set of the store model, at the wallet's own
+    synced-to height, are those of the ledger whose confirmed facts are the
+    placed best chain. *)
+Theorem C15_wallet_balance_is_ledger_balance : forall U hdr pc lo w evs minconf,
+  Hist.wf_universe U = true -> follows U hdr pc lo w evs -> 0 <= minconf ->
+  let s := Hist.st (Hist.run U evs) in
+  let F := Hist.fs (Hist.spec_run U evs) in
+  let now := Hist.clock (Hist.run U evs) in
+  Store.balance U s minconf (m_height (synced w)) now
+    = Ledger.spec_balance U F minconf (m_height (synced w)) now /\
+  Store.unspent_outputs U s now ≡ₚ Ledger.spec_utxos U F now.
+Proof.
+  intros U hdr pc lo w evs minconf Hwf H Hmc.
+  destruct (follows_sim U hdr eq_refl _ _ _ _ H) as [Hs _].
+  exact (wallet_balance_is_ledger_balance U hdr pc lo w evs minconf Hwf Hs Hmc).
+Qed.
+Print Assumptions C15_wallet_balance_is_ledger_balance.
+
+(** Non-vacuity of the composition: the history of [C15_nonvacuous] (a
+    reorganisation of depth 3; tx 1 confirmed in a replaced block and again in
+    the new branch together with its child tx 3; tx 2 and the coinbase 9 only
+    in replaced blocks; a repeated, a future-height and a replaced-block
+    disconnect interleaved) over a concrete universe satisfies [follows];
+    on the store model, tx 1 is reported in block (4, #8) of the new best
+    chain, tx 2 is unconfirmed again, the coinbase 9 is gone. *)
+Definition ex_tx (id : N) (ins : list (N * N)) (cb : bool) : Store.tx :=
+  {| Store.t_id := id; Store.t_ins := ins; Store.t_outs := [1000]; Store.t_creds := [(0%N, false)];
+     Store.t_coinbase := cb |}.
+Definition ex_U : gmap N Store.tx :=
+  Hist.universe_of_list [ex_tx 1 [(0, 0)%N] false; ex_tx 2 [(0, 1)%N] false; ex_tx 3 [(1, 0)%N] false; ex_tx 9 [] true].
+
+Definition ex_e1 : evo := {| e_depth := 0; e_new :=
+  [ex_plain 2; ex_plain 3;
+   {| nb_blk := ex_blk 4; nb_pre := [(1, false)]; nb_post := [] |};
+   {| nb_blk := ex_blk 5; nb_pre := []; nb_post := [(9, true)] |};
+   {| nb_blk := ex_blk 6; nb_pre := []; nb_post := [(2, false)] |}]%N |}.
+Definition ex_e2 : evo := {| e_depth := 3; e_new :=
+  [ex_plain 7;
+   {| nb_blk := ex_blk 8; nb_pre := [(1, false)]; nb_post := [(3, false)] |};
+   ex_plain 9; ex_plain 10]%N |}.
+Definition ex_m (h : Z) (i : nat) : bmeta := meta_of h (ex_blk i).
+Definition ex_stream : list ntfn :=
+  [NDisconnect (ex_m 5 6%nat);
+   NDisconnect (ex_m 5 6%nat);                                      (* repeated *)
+   NDisconnect (ex_m 4 5%nat);
+   NDisconnect {| m_height := 9; m_hash := 77; m_time := 0 |};      (* future height *)
+   NDisconnect (ex_m 3 4%nat);
+   NConnect (ex_m 3 7%nat);
+   NDisconnect (ex_m 3 4%nat);                                      (* replaced block *)
+   NTx 1 false (Some (ex_m 4 8%nat));
+   NConnect (ex_m 4 8%nat);
+   NTx 3 false (Some (ex_m 4 8%nat));
+   NConnect (ex_m 5 9%nat);
+   NConnect (ex_m 6 10%nat)].
+
+Example C15_store_nonvacuous :
+  let pc1 := papply [ex_plain 1] ex_e1 in
+  Hist.wf_universe ex_U = true /\
+  exists lo w evs d d2,
+    follows ex_U ex_hdr (papply pc1 ex_e2) lo w evs /\
+    Store.tx_details ex_U (Hist.st (Hist.run ex_U evs)) 1 = Some d /\ Store.d_block d = Some (4, 8%N) /\
+    Store.tx_details ex_U (Hist.st (Hist.run ex_U evs)) 2 = Some d2 /\ Store.d_block d2 = None /\
+    Store.tx_details ex_U (Hist.st (Hist.run ex_U evs)) 9 = None.
+Proof.
+  cbv zeta. split; [vm_compute; reflexivity|].
+  set (w0 := set_chain_synced true (new_wallet (nb_blk (ex_plain 1)))).
+  set (w1 := (run ex_hdr (emit (chain_of [ex_plain 1]) ex_e1) w0).1).
+  set (w2 := (run ex_hdr ex_stream w1).1).
+  assert (F0 : follows ex_U ex_hdr [ex_plain 1] 0 w0 []).
+  { apply fo_init. vm_compute. eauto. }
+  assert (Hok : forall pc, Node.chain_ok_b ex_U (node_chain pc) = true ->
+                bool_decide (NoDup (Node.chain_hashes (node_chain pc))) = true -> placed_ok ex_U pc).
+  { intros pc H1 H2. split; [by apply NodeProofs.chain_ok_b_sound|by apply bool_decide_eq_true in H2]. }
+  assert (Hk : forall l, forallb (fun b => bool_decide (is_Some (ex_hdr !! bh b))) l = true -> headers_known ex_hdr l).
+  { intros l H b Hb. rewrite forallb_forall in H. apply elem_of_list_In in Hb.
+    specialize (H b Hb). by apply bool_decide_eq_true in H. }
+  assert (F1 : follows ex_U ex_hdr (papply [ex_plain 1] ex_e1)
+                 (Z.max 0 (tip_height (chain_of (papply [ex_plain 1] ex_e1)) - max_reorg_depth + 1)) w1
+                 ([] ++ run_events ex_hdr (emit (chain_of [ex_plain 1]) ex_e1) w0)).
+  { apply (fo_evolve ex_U ex_hdr _ _ _ _ ex_e1 (emit (chain_of [ex_plain 1]) ex_e1) w1 F0).
+    - split; [simpl; lia|]. split; [by left|]. apply Hk. vm_compute. reflexivity.
+    - apply Hok; vm_compute; reflexivity.
+    - eapply stale_noisy_refl. vm_compute. reflexivity.
+    - repeat constructor.
+    - unfold w1. vm_compute. reflexivity. }
+  eexists _, w2, _, _, _. split.
+  - apply (fo_evolve ex_U ex_hdr _ _ _ _ ex_e2 ex_stream w2 F1).
+    + split; [simpl; lia|]. split; [by right|]. apply Hk. vm_compute. reflexivity.
+    + apply Hok; vm_compute; reflexivity.
+    + vm_compute emit. vm_compute chain_of. vm_compute papply. unfold ex_stream.
+      eapply sn_keep; [vm_compute; reflexivity|].
+      eapply sn_stale; [vm_compute; reflexivity|vm_compute; discriminate|].
+      eapply sn_keep; [vm_compute; reflexivity|].
+      eapply sn_stale; [vm_compute; reflexivity|vm_compute; discriminate|].
+      eapply sn_keep; [vm_compute; reflexivity|].
+      eapply sn_keep; [vm_compute; reflexivity|].
+      eapply sn_stale; [vm_compute; reflexivity|vm_compute; discriminate|].
+      eapply sn_keep; [vm_compute; reflexivity|].
+      eapply sn_keep; [vm_compute; reflexivity|].
+      eapply sn_keep; [vm_compute; reflexivity|].
+      eapply sn_keep; [vm_compute; reflexivity|].
+      eapply sn_keep; [vm_compute; reflexivity|].
+      apply sn_nil.
+    + repeat constructor.
+    + unfold w2, w1. vm_compute. reflexivity.
+  - vm_compute. repeat split.
 Qed.
